@@ -73,6 +73,10 @@ SPECIAL_ATOMS = {
     "call": ("atom", "call", "f(a)"),
     "call2": ("atom", "call", "g(a, b)"),
     "brace": ("atom", "brace", "{a + b}"),
+    # quoted names whose TEXT contains the interaction operator: atomic factors that must never
+    # be identified with the interaction of their pieces
+    "qname_colon": ("atom", "qname", "`a:b`"),
+    "qname_colon_rev": ("atom", "qname", "`b:a`"),
 }
 
 LETTERS = "abcdefgh"
@@ -306,7 +310,7 @@ def deco_atoms(t, with_dot=True, with_zero_one=True):
         node = get_at(t, path)
         if node[0] != "atom" or node[1] != "name":
             continue
-        for key in ("qname", "qname_plain", "call", "call2", "brace"):
+        for key in ("qname", "qname_plain", "call", "call2", "brace", "qname_colon", "qname_colon_rev"):
             yield replace_at(t, path, SPECIAL_ATOMS[key])
         pk = parent_kind(t, path)
         if with_zero_one and additive_position(t, path):
@@ -385,7 +389,7 @@ def random_formula(rng, n_ops, p_unary=0.15, p_par=0.1, p_special=0.15, letters=
         if n == 0:
             r = rng.random()
             if r < p_special:
-                choices = ["qname", "call", "call2", "brace"]
+                choices = ["qname", "call", "call2", "brace", "qname_colon", "qname_colon_rev"]
                 a = SPECIAL_ATOMS[rng.choice(choices)]
             elif r < p_special + 0.06 and pos_additive:
                 a = rng.choice([ZERO, ONE])
